@@ -32,7 +32,7 @@ man = {
               "baseline_off_cmd": "bash -c '. /verif/env.sh && cd /repo && go test -vet=off -count=1 -timeout 25m ./...'",
               "source_commits": [], "add_only": True},
     "engines": [{"name": "gosym", "path": "/verif/engine", "serves_properties": [c["property_id"] for c in checks],
-                 "kind_free_text": "symbolic executor for go/ssa (fork of x/tools/go/ssa/interp with SMT-term scalars, re-execution path exploration, deterministic scheduler) + z3 over a pipe; Python driver ./check does native replay, known-finding matching and evidence"}],
+                 "kind_free_text": "symbolic executor for go/ssa (fork of x/tools/go/ssa/interp with SMT-term scalars, re-execution path exploration, deterministic scheduler, optional lockset/vector-clock race analysis) + z3 over a pipe; Python driver ./check does native replay, known-finding matching and evidence"}],
     "checks": checks,
     "not_applicable": na,
     "notes": "Exit codes of ./check: 0 held, 1 VIOLATION (reproduced natively), 3 INCONCLUSIVE (never folded into 0). Genuine defects repaired in /repo are listed in known_findings.json as fixed: entries.",
